@@ -699,6 +699,18 @@ func (e *Env) call(x *SExpr) Val {
 	case "typeis":
 		// typeis(x, T): dynamic type of interface x is *T / T
 		v := e.tr(x.Args[0])
+		if kindOf(v.T) == KIface && x.Args[1].Op == "str" {
+			// typeis(x, "*bufio.Writer"): by type key
+			want := x.Args[1].Name
+			for k, id := range fc.g.typeIDs {
+				if k == want {
+					return Val{T: tBool, S: sEq(v.Sub[0].S, fmt.Sprint(id))}
+				}
+			}
+			id := len(fc.g.typeIDs) + 1
+			fc.g.typeIDs[want] = id
+			return Val{T: tBool, S: sEq(v.Sub[0].S, fmt.Sprint(id))}
+		}
 		if kindOf(v.T) != KIface || x.Args[1].Op != "ident" {
 			return e.errorf("typeis(iface, TypeName)")
 		}
@@ -738,6 +750,9 @@ func (e *Env) call(x *SExpr) Val {
 			}
 			if kindOf(v.T) == KInt {
 				return Val{T: t, S: m.convInt(v.S, v.T, t)}
+			}
+			if kindOf(v.T) == KRef && m.mode == ModeInt {
+				return Val{T: t, S: v.S} // integer boxed in an interface: the payload is the value
 			}
 		}
 		if kindOf(t) == KRef && (kindOf(v.T) == KRef || kindOf(v.T) == KStruct) {
